@@ -6,6 +6,24 @@ TABLE = {
     "C01": ("E1", E1N,
             E1T + "For C01: all (A,P,N,stream) configurations in the bound x message lists over {valid, raising, malformed, unknown}; oracle: each taken valid message starts exactly once, junk never starts, nothing taken is left unexecuted at return.",
             E1NOTE, "DESIGN.md 2.1, 3/C01"),
+    "C02": ("E1", E1N,
+            E1T + "For C02: ack type x ack flavour x outcome for one message and all pairs processed concurrently; the oracle runs at every ack call, i.e. on every prefix of every explored trace (each prefix is what a crash after that event leaves behind): at most one ack, never before the configured point; exactly one when processing finishes.",
+            E1NOTE, "DESIGN.md 2.1, 3/C02"),
+    "C03": ("E1", E1N,
+            E1T + "For C03: (a) A+2 gated messages, invariant #in-processing <= A at every event, order for A=1; (b) every history of <=2 (quick) / <=3 (thorough) outcomes from a 14-letter alphabet (incl. failing hooks, backend failure, raising ack) followed by a saturation probe of A+1 never-ending messages: exactly A must run.",
+            E1NOTE, "DESIGN.md 2.1, 3/C03"),
+    "C04": ("E1", E1N,
+            E1T + "For C04: backlog scenarios with n=A+P+3 messages over the (A,P) grid; invariant #taken-#finished <= A+P+1 at every TAKEN event; non-vacuity: the maximum observed equals A+P+1 in every configuration (else the run fails as vacuous).",
+            E1NOTE, "DESIGN.md 2.1, 3/C04"),
+    "C05": ("E1", E1N,
+            E1T + "For C05: (A,P,N,W) x stream x short/never-ending/slow-ack messages with the stop request enabled in every state; oracles on the virtual clock: <=1 message taken after stop, <=N with max_tasks, no return with unfinished work unless W elapsed, return within one 0.3 s poll after the last finish (within 0.3 s+W with W), no illegal stuck state. One known finding (D2) is classified by a predicate on the failing state.",
+            E1NOTE, "DESIGN.md 2.1, 3/C05"),
+    "C07": ("E1", E1N,
+            E1T + "For C07: flavour x outcome (8 return values, 9 exception classes incl. BaseException subclasses, no-result, timeout labels racing completion in both orders and simultaneously) x labels, and 2-3 message sequences with the backend failing on every subset of saves; oracle at end of processing: number of set_result calls and stored is_err/value/error class/args/labels equal the scripted outcome; later messages still complete.",
+            E1NOTE, "DESIGN.md 2.1, 3/C07"),
+    "C10": ("E1", E1N,
+            E1T + "For C10: every middleware stack in the bound x outcome through the real listen()/callback(), per-message projected log compared with the reference hook sequence; 2 messages x gated hooks for all interleavings; client side: every stack over {pre_send, post_send} x sync/async x replacing x kick ok/raise through the real AsyncKicker.kiq (bounded-exhaustive enumeration).",
+            E1NOTE, "DESIGN.md 2.1, 3/C10"),
     "C14": ("E3", E3I,
             "Every (now, T, spelling) of a stated grid (all seconds of the minute, boundary microseconds, T within -3..+63 s of now / the minute boundary / +-1,2 days, 8 zone spellings) is evaluated with the real get_task_delay under a scripted clock and judged by the property's three-way case split. Exhaustive over that grid, nothing sampled; the right level because the property is a pure function of (now, T) whose failure modes sit at second/minute boundaries.",
             "Trusted: the scripted replacement of run.datetime; Python datetime arithmetic used by the oracle. Instants outside the grid are not covered (small-scope).",
